@@ -62,6 +62,8 @@ FIXED = [
  "fixed: property=C12 c7adebd two CPU-resident memory only operators in a row (RESHAPE ; RESHAPE at the end of a network) were packed into one pass; the tensor between them got no live range and was published at arena offset 0 on top of a live tensor (findings/FX-two-cpu-reshapes-unallocated.C12.json)",
  "fixed: property=C03 a42dec3 PRELU (general lowering to MIN/MUL/RELU/ADD or MUL/MAX) in front of a bypassed RESHAPE: new operations and intermediate tensors took the reshaped shape of the OFM tensor (same class as 92fd28e); reads of undefined bytes and of bytes written as another tensor (findings/FX-prelu-behind-bypassed-reshape.C03.json)",
  "fixed: property=C10 56354b4 (was known finding F09) a 2x nearest-neighbour upscaling operation at the end of a cascade was striped with odd stripe heights: later stripes start on an odd OFM row (the hardware pairs rows from the stripe start, wrong rows are replicated) and the last IFM row of a stripe lies outside its IFM box (fetched through an unused tile base: undefined bytes, accesses outside the extent, DMA/kernel conflicts) (findings/FX-F09-odd-stripe-nearest-upscale.C03.json, .C04-dma.json, FX-F09-odd-final-stripe-nearest-upscale.C01.json)",
+ "fixed: property=C03 2d50067 LEAKY_RELU lowered to elementwise operations (int16, or alpha outside (0,1)) in front of a bypassed RESHAPE: new operations and intermediate tensors took the reshaped shape of the OFM tensor (same class as 92fd28e) (findings/FX-leaky-relu-behind-bypassed-reshape.C03.json)",
+ "fixed: property=C03 c32b0f9 TRANSPOSE ; lookup-table activation (HARD_SWISH, ...) ; consumer: the activation fused into the transposing pool replaced its output tensor, the linear-format / full-buffer requirement was lost, the column-wise written OFM went through a cascade rolling buffer and the consumer read undefined bytes (findings/FX-transpose-fused-activation-cascaded.C03.json)",
 ]
 EXTRA = [
  dict(id="F07-pad-then-mean", property="C13", status="known",
